@@ -297,8 +297,40 @@ def run(repo, rep, tier):
                     for lab, s in node.succ:
                         if lab != "exc":
                             work.append(s)
-            zero_only = bool(returns) and all(is_self_zero(r.ast.value, sn) for r in returns)
-            any_zero = any(is_self_zero(r.ast.value, sn) for r in returns)
+            # `v = self.zero()` ... `return v` with no store into v on the statements reachable for this factor class is the
+            # empty aggregator as well
+            reach_stmts = [g.nodes[i].ast for i in seen if g.nodes[i].kind == "stmt"]
+
+            def zero_like(e):
+                if is_self_zero(e, sn):
+                    return True
+                e2 = e
+                while isinstance(e2, ast.Call) and isinstance(e2.func, ast.Attribute) and e2.func.attr == "specialize":
+                    e2 = e2.func.value
+                if not isinstance(e2, ast.Name):
+                    return False
+                v = e2.id
+                defs = [st for st in reach_stmts if isinstance(st, ast.Assign) and any(isinstance(t, ast.Name) and t.id == v for t in st.targets)]
+                if not defs or not all(is_self_zero(st.value, sn) for st in defs):
+                    return False
+                for st in reach_stmts:
+                    for x in ast.walk(st):
+                        if isinstance(x, (ast.Attribute, ast.Subscript)) and isinstance(getattr(x, "ctx", None), (ast.Store, ast.Del)):
+                            b = x
+                            while isinstance(b, (ast.Attribute, ast.Subscript)):
+                                b = b.value
+                            if isinstance(b, ast.Name) and b.id == v:
+                                return False
+                        if isinstance(x, ast.Call) and isinstance(x.func, ast.Attribute) and x.func.attr not in ("specialize",):
+                            b = x.func.value
+                            while isinstance(b, (ast.Attribute, ast.Subscript)):
+                                b = b.value
+                            if isinstance(b, ast.Name) and b.id == v and x.func.attr in ("update", "append", "extend", "fill", "_numpy", "setdefault",
+                                                                                         "pop", "clear", "insert", "add"):
+                                return False
+                return True
+            zero_only = bool(returns) and all(zero_like(r.ast.value) for r in returns)
+            any_zero = any(zero_like(r.ast.value) for r in returns)
             if cls == "pos":
                 ok = bool(returns) and not any_zero
                 why = "a positive factor can return the empty aggregator"
